@@ -8,6 +8,10 @@ import (
 	"github.com/relab/hotstuff"
 )
 
+// VerifQCOrder, if set by a simulator, may reorder the sorted signer IDs in place: a seeded stand-in for
+// the orders that Go's map iteration produces.
+var VerifQCOrder func(ids []hotstuff.ID)
+
 // verifOrderQCs rebuilds the list that VerifyAggregateQC filled by ranging over a map: the same
 // entries (including the leading zero values the original list starts with), the QCs in the order
 // of their signers' IDs instead of Go's randomised map order. Among QCs of equal view the order
@@ -18,6 +22,9 @@ func verifOrderQCs(m map[hotstuff.ID]hotstuff.QuorumCert, qcs []hotstuff.QuorumC
 		ids = append(ids, id)
 	}
 	slices.Sort(ids)
+	if VerifQCOrder != nil {
+		VerifQCOrder(ids)
+	}
 	out := make([]hotstuff.QuorumCert, len(qcs)-len(m), len(qcs))
 	for _, id := range ids {
 		out = append(out, m[id])
